@@ -382,6 +382,16 @@ func (m *matcher) findMatches(known *knownValue) {
 	if all := known.reValue.FindAllStringIndex(m.normUnknown, -1); all != nil {
 		// We found exact matches. Just use those!
 		for _, a := range all {
+			if a[len(a)-1] > a[0] && !m.tokenAligned(a[0], a[len(a)-1]) {
+				// The occurrence does not start and end on token boundaries: the
+				// known value has leading or trailing white space, or the copy is
+				// glued to the surrounding text. Token ranges cannot describe it,
+				// so report the byte range of the exact match itself.
+				m.mu.Lock()
+				m.queue.Push(&Match{Name: known.key, Confidence: 1.0, Offset: a[0], Extent: a[len(a)-1] - a[0]})
+				m.mu.Unlock()
+				continue
+			}
 			var start, end int
 			for i, tok := range m.unknown.Tokens {
 				if tok.Offset == a[0] {
@@ -425,6 +435,21 @@ func (m *matcher) findMatches(known *knownValue) {
 		}(mr)
 	}
 	wg.Wait()
+}
+
+// tokenAligned reports whether the byte range [start, end) of the unknown text
+// begins at the start of a token and ends at the end of a token.
+func (m *matcher) tokenAligned(start, end int) bool {
+	var atStart, atEnd bool
+	for _, tok := range m.unknown.Tokens {
+		if tok.Offset == start {
+			atStart = true
+		}
+		if tok.Offset+len(tok.Text) == end {
+			atEnd = true
+		}
+	}
+	return atStart && atEnd
 }
 
 // withinConfidenceThreshold returns the Confidence we have in the potential
